@@ -8,7 +8,7 @@ func init() {
 			"writer (simulation): schema.WriteFileFromReader fed by a SimReader (seeded fragment sizes incl. 1-byte, short and empty reads, EOF with or after the last data, source error at byte k, scheduling points inside reads) uploading to a SimStore whose call order/latency/failures are seeded; on success the file is read back byte-identical with the right Size(), no data chunk exceeds 1 MiB, every reachable ref is stored and the file blob's receive starts after every part's receive returned; a source error must surface as an error; a hang is a violation. " +
 			"reader (simulation): a file built by the real writer is read by 1-3 concurrent client tasks (ReadAt/Read/Seek/ReadAll/ForeachChunk at stratified offsets incl. actual chunk boundaries) over a SimStore with transient fetch errors, short reads, wrong sizes and delays: exact bytes or an error, never other bytes, never a short ReadAt without error. " +
 			"tree (INPUT GENERATION, no scheduler/faults): hand-built bytes/file part trees of up to 3 schema levels with offsets, sub-ranges, holes and shared sub-trees, stored with the harness's own JSON, every read compared with a reference interpreter of doc/schema/bytes.md.  The parts of a bytes tree are also copied through ByteParts()/PartsSize into a new file map and read back. " +
-			"dir (INPUT GENERATION + optional fetch faults): directories with member counts around fan-out, its multiples, its square and cube (fan-out 3-10 through VerifSetMaxStaticSetMembers), written with schema.NewStaticSet/SetStaticSetMembers, checked with the harness's own static-set.md reader and read back through DirReader.StaticSet/Readdir(-1) as multisets. " +
+			"dir (INPUT GENERATION + optional fetch faults): directories with member counts around fan-out, its multiples, its square and cube (fan-out 3-10 through VerifSetMaxStaticSetMembers), written with schema.NewStaticSet/SetStaticSetMembers, checked with the harness's own static-set.md reader and read back through DirReader.StaticSet/Readdir(-1) as multisets.  One directory run in 500 leaves the threshold perkeep ships with as it is (read at run time) and builds a directory of that many members minus one, exactly, plus one. " +
 			"non-trivial = non-empty content with at least one operation; distinct = distinct (mode, content kind and length or tree/dir shape, operation-kind sequence or fragmentation shape, fault kinds)",
 		Assume: []string{
 			"tree and dir modes are input generation, not simulation; only trees whose meaning doc/schema/bytes.md settles are generated (size > 0, offset+size within the referenced blob or bytes schema, at most one of blobRef/bytesRef)",
